@@ -111,7 +111,7 @@ func TestGovcEmbedReplay(t *testing.T) {
 		fmt.Printf("GOVC-INFO embed cases: must=%d may=%d forbidden=%d, cases with a placeholder in the result=%d\n", byExpect[govcC19Must], byExpect[govcC19May], byExpect[govcC19Forbid], withPlaceholder)
 		fmt.Printf("GOVC-INFO embed degenerate-URL cases: %d (of which %d carry no id at all), with a placeholder in the result=%d\n", degEvals, degNoID, degWithPlaceholder)
 		fmt.Printf("GOVC-CASES evaluations=%d distinct_nontrivial=%d rule=%s\n", evals, nontrivial,
-			"(a) 36 hosts (8 allow-listed, 3 unusual spellings, 25 look-alike/userinfo/path/query/fragment tricks) x {https,http,//} x {iframe with the natural path shape, object data= and object param movie (YouTube-like hosts), blockquote.twitter-tweet (Twitter-like hosts)}, plus for https: iframe x the other 5 path shapes and iframe x {data-src, data-lazy-src, data-src same service} holding the opposite kind of URL; (b) degenerate URLs on 6 allow-listed hosts x {https,http,//} x {iframe without and with data-tweet-id, object data= / param movie (YouTube), blockquote.twitter-tweet (Twitter)} x URL remainders {empty, /, //, ///, only a query, /+query, only a fragment, /+fragment, blank segment, the service keyword (embed, v, video, status) without id in 4-5 spellings} where no id exists, and {id/, id//, id/blank, id/?query, id#fragment, doubled slashes} where it does; unique id per case, one frame between long paragraphs; non-trivial = both neighbouring paragraphs retained in Result.Text")
+			"(a) 36 hosts (8 allow-listed, 3 unusual spellings, 25 look-alike/userinfo/path/query/fragment tricks) x {https,http,//} x {iframe with the natural path shape, object data= and object param movie (YouTube-like hosts), blockquote.twitter-tweet (Twitter-like hosts)}, plus for https: iframe x the other 5 path shapes and iframe x {data-src, data-lazy-src, data-src same service} holding the opposite kind of URL; (b) degenerate URLs on 6 allow-listed hosts x {https,http,//} x {iframe without and with data-tweet-id, object data= / param movie (YouTube), blockquote.twitter-tweet (Twitter)} x URL remainders {empty, /, //, ///, only a query, /+query, only a fragment, /+fragment, blank segment, the service keyword (embed, v, video, status) without id in 4-5 spellings} where no id exists, and {id/, id//, id/blank, id/?query, id#fragment, doubled slashes} where it does; (c) query parameters on 6 allow-listed hosts x {https, // for two hosts} x {iframe, object data= / param movie (YouTube), blockquote.twitter-tweet (Twitter)} x path shapes with the id in the path {/embed/ID, /v/ID, /v/ID& (old spelling), /embed/ID/, /video/ID, /video/ID/, /user/status/ID} x 26 query strings (v, vi, id, video_id, list, playlist, si, h with id-like or numeric values, alone / before / after other parameters, twice, upper case, empty, with fragment, double-escaped ampersand, t, start/end, rel/autoplay/feature, jsapi/origin, many at once) where data-id must stay the path id, and path shapes without an id {/watch, /watch/, /embed, /embed/, /, /embed/videoseries, /video} x 8 of the query strings (3 hosts, https) where a placeholder is optional but its data-id must be an id occurring in the URL and not the page name; unique id per case, one frame between long paragraphs; non-trivial = both neighbouring paragraphs retained in Result.Text")
 	}()
 
 	schemes := []struct{ key, prefix string }{{"https", "https://"}, {"http", "http://"}, {"rel", "//"}}
@@ -450,6 +450,212 @@ func TestGovcEmbedReplay(t *testing.T) {
 							}
 							if !inside {
 								t.Errorf("GOVC-FAIL %s/bare-frame :: embed: <%s> outside a placeholder in the distilled HTML (frames %v): %s", key, dom.TagName(n), frames, frame)
+							}
+						}
+					}
+				}
+			}
+		}
+	}
+
+	// ---- (c) QUERY PARAMETERS on the URLs of allow-listed hosts ----
+	// "the video/tweet id taken from the URL": where the URL has the id in its path (/embed/ID, /v/ID, /video/ID,
+	// /user/status/ID) that path section is the id, whatever parameters follow it - also parameters that are
+	// called v, vi, id, video_id, list ... and whose values look like ids or numbers. Where the path has no id
+	// (/watch?v=ID, /embed?v=ID, /embed/videoseries?list=ID) a placeholder is not demanded; if there is one its
+	// data-id must be an id that occurs in the URL (a path section or a parameter value) - the page names
+	// "watch", "embed", "videoseries" are not ids.
+	type paramQuery struct {
+		key  string
+		make func(decoy string) string // the query string (without "?"), decoy looks like a video id
+	}
+	queries := []paramQuery{
+		{"v-id", func(d string) string { return "v=" + d }},
+		{"v-number", func(d string) string { return "v=3" }},
+		{"rel+v-id", func(d string) string { return "rel=0&v=" + d }},
+		{"v-id+rel", func(d string) string { return "v=" + d + "&rel=0" }},
+		{"rel+v-number", func(d string) string { return "rel=0&v=3" }},
+		{"v-twice", func(d string) string { return "v=" + d + "&autoplay=1&v=7" }},
+		{"V-upper", func(d string) string { return "V=" + d }},
+		{"v-empty", func(d string) string { return "v=&rel=0" }},
+		{"v-id-fragment", func(d string) string { return "v=" + d + "#t=5" }},
+		{"amp-amp-v", func(d string) string { return "rel=0&amp;v=" + d }},
+		{"vi-id", func(d string) string { return "vi=" + d }},
+		{"id-id", func(d string) string { return "id=" + d }},
+		{"id-number", func(d string) string { return "autoplay=1&id=12345678" }},
+		{"video_id-id", func(d string) string { return "video_id=" + d + "&feature=player_embedded" }},
+		{"list-id", func(d string) string { return "list=PL" + d }},
+		{"list+index", func(d string) string { return "list=PL" + d + "&index=2" }},
+		{"playlist-id", func(d string) string { return "loop=1&playlist=" + d }},
+		{"t-number", func(d string) string { return "t=90" }},
+		{"start+end", func(d string) string { return "start=30&end=60" }},
+		{"rel+autoplay+feature", func(d string) string { return "rel=0&autoplay=1&feature=oembed" }},
+		{"feature+v-id", func(d string) string { return "feature=player_embedded&v=" + d }},
+		{"si-id", func(d string) string { return "si=" + d }},
+		{"h-hash", func(d string) string { return "h=" + strings.ToLower(d) + "&title=0&byline=0" }},
+		{"jsapi+origin", func(d string) string { return "enablejsapi=1&origin=https%3A%2F%2Fnews.example.org&widgetid=1" }},
+		{"many", func(d string) string {
+			return "id=" + d + "&v=3&list=PL" + d + "&t=5&start=10&rel=0&autoplay=1&feature=share"
+		}},
+		{"ref_src+s", func(d string) string { return "ref_src=twsrc%5Etfw&s=20&id=" + d }},
+	}
+	type paramShape struct {
+		key, service string
+		hasID        bool                      // the path carries the id
+		must         bool                      // documented shape: a placeholder is demanded (exact hosts)
+		url          func(id, q string) string // path and query for the id and the query string
+	}
+	pshapes := []paramShape{
+		{"embed", "youtube", true, true, func(id, q string) string { return "/embed/" + id + "?" + q }},
+		{"v", "youtube", true, true, func(id, q string) string { return "/v/" + id + "?" + q }},
+		{"v-amp", "youtube", true, true, func(id, q string) string { return "/v/" + id + "&" + q }}, // the old "&" for "?" spelling
+		{"embed-slash", "youtube", true, false, func(id, q string) string { return "/embed/" + id + "/?" + q }},
+		{"video", "vimeo", true, true, func(id, q string) string { return "/video/" + id + "?" + q }},
+		{"video-slash", "vimeo", true, false, func(id, q string) string { return "/video/" + id + "/?" + q }},
+		{"status", "twitter", true, true, func(id, q string) string { return "/someuser/status/" + id + "?" + q }},
+		// no id in the path: the only ids are in the query (decoy = the id)
+		{"watch", "youtube", false, false, func(id, q string) string { return "/watch?" + q }},
+		{"watch-slash", "youtube", false, false, func(id, q string) string { return "/watch/?" + q }},
+		{"embed-noid", "youtube", false, false, func(id, q string) string { return "/embed?" + q }},
+		{"embed-slash-noid", "youtube", false, false, func(id, q string) string { return "/embed/?" + q }},
+		{"root-noid", "youtube", false, false, func(id, q string) string { return "/?" + q }},
+		{"videoseries", "youtube", false, false, func(id, q string) string { return "/embed/videoseries?" + q }},
+		{"video-noid", "vimeo", false, false, func(id, q string) string { return "/video?" + q }},
+		{"root-noid", "vimeo", false, false, func(id, q string) string { return "/?" + q }},
+	}
+	noIDQueries := map[string]bool{"v-id": true, "rel+v-id": true, "v-id+rel": true, "v-id-fragment": true, "vi-id": true, "id-id": true, "list-id": true, "many": true}
+	noIDHosts := map[string]bool{"www.youtube.com": true, "www.youtube-nocookie.com": true, "player.vimeo.com": true}
+	keywords := map[string]bool{"watch": true, "embed": true, "v": true, "e": true, "video": true, "videoseries": true, "playlist": true, "status": true, "statuses": true, "someuser": true}
+	paramHosts := []struct {
+		host, service string
+		elements      []string
+	}{
+		{"www.youtube.com", "youtube", []string{"iframe", "object-data", "object-param"}},
+		{"youtube.com", "youtube", []string{"iframe"}},
+		{"www.youtube-nocookie.com", "youtube", []string{"iframe", "object-param"}},
+		{"m.youtube.com", "youtube", []string{"iframe"}},
+		{"player.vimeo.com", "vimeo", []string{"iframe"}},
+		{"twitter.com", "twitter", []string{"blockquote"}},
+	}
+	paramEvals, paramNoID, paramWithPlaceholder := 0, 0, 0
+	defer func() {
+		fmt.Printf("GOVC-INFO embed query-parameter cases: %d (of which %d without an id in the path), with a placeholder in the result=%d\n", paramEvals, paramNoID, paramWithPlaceholder)
+	}()
+	pseq := 0
+	for _, h := range paramHosts {
+		for _, sc := range schemes {
+			if sc.key == "http" || (sc.key == "rel" && h.host != "www.youtube.com" && h.host != "player.vimeo.com") {
+				continue
+			}
+			for _, el := range h.elements {
+				if sc.key == "rel" && el != "iframe" {
+					continue
+				}
+				for _, sh := range pshapes {
+					if sh.service != h.service {
+						continue
+					}
+					for _, q := range queries {
+						if !sh.hasID && (!noIDQueries[q.key] || !noIDHosts[h.host] || sc.key != "https") {
+							continue
+						}
+						pseq++
+						id := fmt.Sprintf("Pq%05dk", pseq)
+						decoy := fmt.Sprintf("Dc%05dy", pseq)
+						url := sc.prefix + h.host + sh.url(id, q.make(decoy))
+						key := fmt.Sprintf("params/%s/%s/%s/%s/%s", h.host, sc.key, el, sh.key, q.key)
+						attr := html.EscapeString(url)
+						var frame string
+						switch el {
+						case "iframe":
+							frame = `<iframe width="560" height="315" src="` + attr + `" frameborder="0" allowfullscreen></iframe>`
+						case "object-data":
+							frame = `<object width="560" height="315" type="application/x-shockwave-flash" data="` + attr + `"><param name="allowFullScreen" value="true"></object>`
+						case "object-param":
+							frame = `<object width="560" height="315"><param name="movie" value="` + attr + `"><param name="allowFullScreen" value="true"><embed src="` + attr + `" type="application/x-shockwave-flash" width="560" height="315"></object>`
+						case "blockquote":
+							frame = `<blockquote class="twitter-tweet"><p>Announcement of the day</p>&mdash; Some User (@someuser) <a href="` + attr + `">June 1, 2020</a></blockquote>`
+						}
+						src := `<html><head><title>Regional water supply report</title></head><body><div id="story">` +
+							govcC19Para("alphafirst") + govcC19Para("alphasecond") + frame + govcC19Para("omegafirst") + govcC19Para("omegasecond") +
+							`</div></body></html>`
+						res, err := ApplyForReader(strings.NewReader(src), nil)
+						evals++
+						paramEvals++
+						if !sh.hasID {
+							paramNoID++
+						}
+						if err != nil {
+							t.Errorf("GOVC-FAIL %s :: embed case returned error %v", key, err)
+							continue
+						}
+						retained := strings.Contains(res.Text, "alphasecond") && strings.Contains(res.Text, "omegafirst")
+						if retained {
+							nontrivial++
+						}
+						placeholders := dom.QuerySelectorAll(res.Node, "div.embed-placeholder")
+						if len(placeholders) > 0 {
+							paramWithPlaceholder++
+						}
+						if len(placeholders) > 1 {
+							t.Errorf("GOVC-FAIL %s/count :: embed: %d placeholders for one frame: %s", key, len(placeholders), frame)
+						}
+						if len(placeholders) == 0 && sh.hasID && sh.must && retained {
+							t.Errorf("GOVC-FAIL %s/missing :: embed: no placeholder for an allow-listed %s frame of documented shape with query parameters (neighbours retained): %s", key, h.service, frame)
+						}
+						for _, p := range placeholders {
+							gotType, gotID := govcC19Attr(p, "data-type"), govcC19Attr(p, "data-id")
+							if gotType != h.service {
+								t.Errorf("GOVC-FAIL %s/type :: embed placeholder has data-type %q, the host belongs to %q: %s", key, gotType, h.service, frame)
+							}
+							if sh.hasID {
+								if gotID != id {
+									t.Errorf("GOVC-FAIL %s/id :: embed placeholder has data-id %q, the id in the path of the URL is %q (query parameters do not name the embedded video/tweet): %s", key, gotID, id, frame)
+								}
+								continue
+							}
+							// no id in the path: an id that occurs in the URL
+							occurs := false
+							rest := url[strings.Index(url, h.host)+len(h.host):]
+							if i := strings.IndexByte(rest, '#'); i >= 0 {
+								rest = rest[:i]
+							}
+							pathPart, queryPart := rest, ""
+							if i := strings.IndexByte(rest, '?'); i >= 0 {
+								pathPart, queryPart = rest[:i], rest[i+1:]
+							}
+							for _, seg := range strings.Split(pathPart, "/") {
+								if seg == gotID {
+									occurs = true
+								}
+							}
+							for _, kv := range strings.Split(queryPart, "&") {
+								if i := strings.IndexByte(kv, '='); i >= 0 && kv[i+1:] == gotID {
+									occurs = true
+								}
+							}
+							switch {
+							case !isID(gotID):
+								t.Errorf("GOVC-FAIL %s/non-id :: embed placeholder (data-type %q) has data-id %q, which is not an id at all: %s", key, gotType, gotID, frame)
+							case keywords[strings.ToLower(gotID)]:
+								t.Errorf("GOVC-FAIL %s/keyword-id :: embed placeholder (data-type %q) has data-id %q: that is the name of the page in the path, not a video id; the URL has no id in its path (ids occur only as parameter values), so either no placeholder or one of those ids: %s", key, gotType, gotID, frame)
+							case !occurs:
+								t.Errorf("GOVC-FAIL %s/foreign-id :: embed placeholder has data-id %q, which occurs neither as a path section nor as a parameter value of the URL: %s", key, gotID, frame)
+							}
+						}
+						if el != "blockquote" {
+							for _, n := range dom.QuerySelectorAll(res.Node, "iframe,object,embed") {
+								inside := false
+								for a := n.Parent; a != nil; a = a.Parent {
+									for _, p := range placeholders {
+										if a == p {
+											inside = true
+										}
+									}
+								}
+								if !inside {
+									t.Errorf("GOVC-FAIL %s/bare-frame :: embed: <%s> outside a placeholder in the distilled HTML: %s", key, dom.TagName(n), frame)
+								}
 							}
 						}
 					}
